@@ -3,6 +3,7 @@ package props
 import (
 	"fmt"
 	"strings"
+	"sync"
 
 	"github.com/AdguardTeam/urlfilter"
 	"github.com/AdguardTeam/urlfilter/rules"
@@ -262,9 +263,111 @@ func c06CheckSelected(c *core.Ctx, via string, sel *rules.NetworkRule, items []c
 	}
 }
 
+// c06Catalog is the catalogue of rule shapes for the exhaustive part: every
+// set of up to 3 (thorough: 4) shapes is executed in all its permutations.
+var c06Catalog = func() (out []c06Item) {
+	add := func(source bool, s *gen.Spec) {
+		if source {
+			s.Pattern = "||site.com^"
+		} else {
+			s.Pattern = "||ads.com^"
+		}
+		out = append(out, c06Item{Spec: s, Source: source, Text: s.Render(nil)})
+	}
+	rw := "1.2.3.4"
+	for _, exc := range []bool{false, true} {
+		for _, imp := range []bool{false, true} {
+			add(false, &gen.Spec{Exception: exc, Important: imp})
+			add(false, &gen.Spec{Exception: exc, Important: imp, Domains: []gen.Val{{Name: "site.com"}}})
+			add(false, &gen.Spec{Exception: exc, Important: imp, Domains: []gen.Val{{Name: "other.org", Neg: true}}})
+		}
+	}
+	for _, o := range []string{"urlblock", "genericblock", "elemhide", "document"} {
+		for _, imp := range []bool{false, true} {
+			add(false, &gen.Spec{Exception: true, Important: imp, DocOpts: []string{o}})
+			add(true, &gen.Spec{Exception: true, Important: imp, DocOpts: []string{o}})
+		}
+	}
+	add(false, &gen.Spec{DNSRewrite: &rw})
+	add(false, &gen.Spec{Exception: true, DNSRewrite: &rw})
+	add(false, &gen.Spec{Exception: true, Stealth: true})
+	add(false, &gen.Spec{Badfilter: true})
+	add(false, &gen.Spec{Badfilter: true, Exception: true})
+	add(false, &gen.Spec{Badfilter: true, Important: true})
+	add(true, &gen.Spec{Exception: true})
+	add(true, &gen.Spec{})
+	add(true, &gen.Spec{Exception: true, Stealth: true})
+	add(true, &gen.Spec{Exception: true, Badfilter: true, DocOpts: []string{"urlblock"}})
+	add(true, &gen.Spec{Exception: true, Badfilter: true, DocOpts: []string{"genericblock"}})
+
+	return out
+}()
+
+// c06Subsets lists all subsets of the catalogue with 1..k members.
+func c06Subsets(k int) (out [][]int) {
+	n := len(c06Catalog)
+	var rec func(start int, cur []int)
+	rec = func(start int, cur []int) {
+		if len(cur) > 0 {
+			out = append(out, append([]int(nil), cur...))
+		}
+		if len(cur) == k {
+			return
+		}
+		for i := start; i < n; i++ {
+			rec(i+1, append(cur, i))
+		}
+	}
+	rec(0, nil)
+
+	return out
+}
+
+var (
+	c06SubsetCache = map[int][][]int{}
+	c06SubsetMu    sync.Mutex
+)
+
+func c06SubsetsFor(t core.Tier) [][]int {
+	k := 3
+	if t == core.Thorough {
+		k = 4
+	}
+	c06SubsetMu.Lock()
+	defer c06SubsetMu.Unlock()
+	if _, ok := c06SubsetCache[k]; !ok {
+		c06SubsetCache[k] = c06Subsets(k)
+	}
+
+	return c06SubsetCache[k]
+}
+
+const c06SubsetBatch = 16
+
+func c06ExhaustiveCases(t core.Tier) int {
+	return (len(c06SubsetsFor(t)) + c06SubsetBatch - 1) / c06SubsetBatch
+}
+
 func c06Run(c *core.Ctx, idx int) {
+	if ne := c06ExhaustiveCases(c.Env.Tier); idx < ne {
+		subs := c06SubsetsFor(c.Env.Tier)
+		for k := idx * c06SubsetBatch; k < (idx+1)*c06SubsetBatch && k < len(subs); k++ {
+			var items []c06Item
+			for _, i := range subs[k] {
+				items = append(items, c06Catalog[i])
+			}
+			c06RunItems(c, items, true)
+			c.Event("catalogue_subsets", 1)
+		}
+
+		return
+	}
 	web := idx%3 != 0
 	items := c06RandomItems(c, web)
+	c06RunItems(c, items, web)
+}
+
+func c06RunItems(c *core.Ctx, items []c06Item, web bool) {
 	want := c06Reference(items, web)
 
 	var texts []string
@@ -360,14 +463,14 @@ func init() {
 	core.Register(&core.Prop{
 		ID:    "C06",
 		Level: "exploration",
-		Rule: "multisets of 1..5 matching rules (plus badfilter twins) over {exception} x {important} x {generic, $domain-specific, ~domain-only} x {no doc modifier, urlblock, genericblock, elemhide, document} x {$dnsrewrite} x {$stealth}, request-side and referrer-side; " +
+		Rule: "exhaustive part: every subset of up to 3 (thorough 4) shapes of a 39-shape catalogue (request-side: exception x important x {generic, $domain-specific, ~domain-only}, document-level exceptions, $dnsrewrite, $stealth, badfilter twins; referrer-side: document-level exceptions x important, plain rules, $stealth, badfilter twins) in ALL permutations; sampled part: multisets of 1..5 matching rules (plus badfilter twins) over {exception} x {important} x {generic, $domain-specific, ~domain-only} x {no doc modifier, urlblock, genericblock, elemhide, document} x {$dnsrewrite} x {$stealth}, request-side and referrer-side; " +
 			"ALL permutations of every multiset through NewMatchingResult / GetDNSBasicRule, and every fifth permutation through Engine.MatchRequest, NetworkEngine.Match and DNSEngine.MatchRequest with a random split into 1..3 lists; " +
 			"oracle = precedence reference on specs (class in block/allow/none) plus invariants on the selected rule; non-trivial = every multiset (distinct by sorted rule texts and sides)",
 		Assumptions: []string{
 			"a referrer-level $urlblock exception suppresses every blocking rule including $important ones, as the statement says 'every blocking rule'",
 			"twins are generated with identical value order inside each modifier",
 		},
-		Cases: func(t core.Tier) int { return sizes[t] },
+		Cases: func(t core.Tier) int { return c06ExhaustiveCases(t) + sizes[t] },
 		Run:   c06Run,
 	})
 }
